@@ -1004,7 +1004,7 @@ def install_ns_stop(mon):
         V = mon.violation
         conds = st["conds"]
         tol = self.tolerance
-        rec["n"] = len(conds)
+        rec["n"] = max(rec.get("n", 0), len(conds))
         rec["tolerance"] = float(tol)
         rec["max_iteration"] = None if not np.isfinite(self.max_iteration) \
             else int(self.max_iteration)
@@ -1047,6 +1047,9 @@ def install_ns_stop(mon):
                 break
 
     def before_loop(self):
+        # (conditions recorded by an earlier call of the loop in this process
+        # were judged when that call returned)
+        st["conds"] = []
         st["start_iteration"] = int(self.iteration)
         st["start_capped"] = bool(
             self.iteration >= self.max_iteration and not self.finalised)
@@ -1343,14 +1346,22 @@ def _post_idem(mon, fs, job):
         mon.classes.add("capped-standard-run")
     if os.path.exists(path):
         d0 = json.load(open(path))
+        # a run that stopped at its cap iterates once more every time it is
+        # run again (recorded finding) and may thereby reach its tolerance
+        # and finalise: what changes then still belongs to that finding
+        if d0.pop("__capped__", False):
+            pre = "rerun-of-capped-run:"
         mon.classes.add("resumed-after-finish")
         for k in d0:
             if d0[k] != d1[k]:
                 V(f"{pre}resume-after-finish:{k}-changed",
                   f"{d0[k]} -> {d1[k]}")
+        if pre:
+            with open(path, "w") as f:
+                json.dump(dict(d0, __capped__=True), f)
     else:
         with open(path, "w") as f:
-            json.dump(d1, f)
+            json.dump(dict(d1, __capped__=bool(capped)), f)
     calls0 = mon.model.points
     try:
         fs.run(**dict({"plot": False}, **job.get("run_kwargs", {})))
